@@ -7,6 +7,7 @@ CONSTANTS
   Palettes = {}
   Kinds = {1, 2}
   RestartResizes = TRUE
+  IgnoreModes = {FALSE}
   AnonModes = {FALSE}
   Faults = TRUE
   AllowWindow = TRUE
